@@ -12,12 +12,10 @@ for id in $ids; do
     [ -f "$d" ] || continue
     git -C /repo apply "$d" || { echo "$id $h APPLY-FAILED"; continue; }
     (cd /repo && go build ./... && go test -vet=off -count=1 ./... >/dev/null 2>&1) || echo "$id $h SUITE-FAILED"
-    bad=""
-    for c in $all; do
-      out=$(timeout 1800 ./check $c --tier quick 2>&1 | grep -E "VIOLATION" | head -1)
-      [ -n "$out" ] && bad="$bad [$out]"
-    done
+    # build once, then the twenty checks four at a time
+    ./check C20 --tier quick >/dev/null 2>&1
+    bad=$(printf '%s\n' $all | xargs -P 4 -I{} sh -c 'timeout 1800 ./check {} --tier quick --no-build 2>&1 | grep -E "VIOLATION" | head -1' | tr '\n' ' ')
     git -C /repo checkout -- . ; git -C /repo clean -fdq
-    if [ -z "$bad" ]; then echo "$id $h QUIET"; else echo "$id $h ALARM ::$bad"; fi
+    if [ -z "$(echo $bad | tr -d ' ')" ]; then echo "$id $h QUIET"; else echo "$id $h ALARM :: $bad"; fi
   done
 done
